@@ -161,11 +161,11 @@ func hasQuant(t *Term) bool {
 
 // QueryQF builds the instantiated variant of an obligation's query; nil if it would equal the full query.
 func (e *Engine) QueryQF(r *FuncResult, o *Obligation) []*Term {
-	if o.Cover {
-		return nil
-	}
 	tb := e.tb
 	goal := tb.Not(e.skolemize(o.Goal))
+	if o.Cover {
+		goal = tb.True()
+	}
 	anyQ := false
 	facts := e.relevantFacts(r, o)
 	for _, f := range facts {
